@@ -147,9 +147,16 @@ func decodeStruct(p Paragraph, into reflect.Value) error {
 		fieldType := into.Type().Field(i)
 
 		if field.Type().Kind() == reflect.Struct {
-			err := decodeStruct(p, field)
-			if err != nil {
-				return err
+			/* Walk into plain nested structs only. The Paragraph member
+			 * is filled in below, and a type that unmarshals itself owns
+			 * its members: a field that happens to be called `Values`
+			 * or `Epoch` is not meant for them. */
+			_, selfUnmarshals := field.Addr().Interface().(Unmarshallable)
+			if fieldType.Type != paragraphType && !selfUnmarshals {
+				err := decodeStruct(p, field)
+				if err != nil {
+					return err
+				}
 			}
 		}
 
